@@ -114,7 +114,8 @@ def join(
                 else:
                     # Remove features from the feature list, if it is not in
                     # this dataset, or cannot be computed on-the-fly.
-                    for feat in features:
+                    # (iterate over a copy, because we remove items)
+                    for feat in list(features):
                         if feat not in dsc.features:
                             features.remove(feat)
                             warnings.warn(
